@@ -17,6 +17,11 @@ CLAIMED = {
    note="Trusted: Lean kernel; JEDEC decoders in Spec/JedecLpddr4.lean, Spec/JedecLpddr5.lean and the DFI conventions in Spec/LpddrExpect.lean; table translator; the pipeline placement/suppression claim is checked by the Lean stream monitor on implementation traces and by co-simulation, its unbounded theorem is proved for the model in Props/C20 where stated; LPDDR5PHY's PipeValid command path is modelled, not co-simulated.",
    technique="Lean 4 proof over generated truth tables (round trip through JEDEC decoders) + exhaustive-by-class correspondence of adapters and command pipeline in Migen",
    design="§6 C20"),
+ "C17": dict(
+   text="Lean theorems, decided by the kernel over the encoding tables regenerated from init.py on every run: DDR3/DDR4 MR0/MR1/MR2/MR3/MR6, SDR/DDR/LPDDR/DDR2 MR and LPDDR4 MR1/MR2 decode (JEDEC decoders written from the standards) to the BL/CL/CWL/WR/termination values handed in, fields never overlap or overflow, every default (CL,CWL) pair is encodable; write-recovery clause proved for WR derived from tWR (_partial) with a counter-example theorem for the code's tWTR-derived WR. Model tied to the real get_sdram_phy_init_sequence over all table keys/options, WR checked against the module library x clock grid, C and Python headers parsed back and compared.",
+   note="Trusted: Lean kernel; JEDEC MR decoders (Spec/JedecMR.lean); ast-based table translator; RPC and LPDDR5 MR contents not modelled (header equivalence only). Known findings: c17-wr-from-twtr, c17-ddr2-wr-const, c17-py-clamshell.",
+   technique="Lean 4 proof by kernel decision over generated tables + exhaustive correspondence with init.py",
+   design="§6 C17"),
  "C06": dict(
    text="Lean theorems over the parametric address-map model for every geometry satisfying WF: left and right inverse (injective, onto), A10 never a column bit, row part, consecutive walk; model tied to the real crossbar routing and _AddressSlicer by exhaustive (small geometries) and dense evaluation in Migen's simulator.",
    note="Trusted: Lean kernel, Spec (Loc/addrOf/encodeCol in Props/C06.lean), correspondence harness; the steerer's rank/bank split is replicated in the harness and re-observed end-to-end by C01/C02 whole-core runs.",
